@@ -265,6 +265,9 @@ func warmUp(m *cors.Middleware, extra ...vlib.Req) {
 // buildVia0 builds a middleware for lit through the given route and then sets the debug mode.
 func buildVia0(route int, lit CfgLit, debug bool, early **earlyWrap, extra ...vlib.Req) (*cors.Middleware, error) {
 	cfg := lit.Config()
+	if route%2 == 1 {
+		cfg = lit.ConfigAlt() // odd routes: lists share one backing array, unused lists are empty and non-nil
+	}
 	var m *cors.Middleware
 	var err error
 	switch route {
